@@ -1,4 +1,4 @@
-import MgpuProofs.C20_InvDefs
+import MgpuProofs.C20_Inv1
 /-! # C20 — a termination measure: every strict run (only awake components tick) is finite
 
 `Phi` is a potential that every tick with progress lowers and every tick without progress leaves
@@ -820,6 +820,147 @@ theorem noprog_tickSub (s : Sys) (u : Nat) :
       simp [awakeOf, get_upd_self] at h
     · simp [awakeOf, get_upd_self] at h
 
+theorem fwdDown_zero_wake {α : Type} (pOut : List (Nat × α)) (cIn : List (List α))
+    (h : (Level.fwdDown pOut cIn).2.2.2 = 0) : (Level.fwdDown pOut cIn).2.2.1 = [] := by
+  cases pOut with
+  | nil => rfl
+  | cons p rest =>
+    obtain ⟨i, u⟩ := p
+    unfold Level.fwdDown at h ⊢
+    simp only at h ⊢
+    split
+    · rfl
+    · rename_i hf
+      rw [if_neg hf] at h
+      simp at h
+
+theorem fwdPort_noprog_wakes {α : Type} (o : Level.ConnOut α) (p : Nat)
+    (h : (Level.fwdPort o p).progress = false) :
+    (Level.fwdPort o p).wakePar = o.wakePar ∧ (Level.fwdPort o p).wakeChi = o.wakeChi := by
+  cases p with
+  | zero =>
+    simp only [Level.fwdPort, Bool.or_eq_false_iff, bne_eq_false_iff_eq] at h
+    have := fwdDown_zero_wake _ _ h.2
+    simp [Level.fwdPort, h.2, this]
+  | succ k =>
+    simp only [Level.fwdPort, Bool.or_eq_false_iff, bne_eq_false_iff_eq] at h
+    simp [Level.fwdPort, h.2]
+
+theorem foldl_noprog_wakes {α : Type} (ps : List Nat) (o : Level.ConnOut α)
+    (h : (ps.foldl (fun o p => Level.fwdPort o p) o).progress = false) :
+    (ps.foldl (fun o p => Level.fwdPort o p) o).wakePar = o.wakePar ∧
+    (ps.foldl (fun o p => Level.fwdPort o p) o).wakeChi = o.wakeChi := by
+  induction ps generalizing o with
+  | nil => exact ⟨rfl, rfl⟩
+  | cons q ps ih =>
+    simp only [List.foldl_cons] at h ⊢
+    obtain ⟨a1, a2⟩ := ih _ h
+    obtain ⟨b1, b2⟩ := fwdPort_noprog_wakes o q (foldl_noprogress ps _ h).1
+    exact ⟨a1.trans b1, a2.trans b2⟩
+
+/-- a connection tick without progress wakes nobody -/
+theorem connTick_noprog_wakes {α : Type} (l : Level α) (h : l.connTick.l.connAwake = false) :
+    l.connTick.wakePar = false ∧ l.connTick.wakeChi = [] := by
+  have hf : connFold l = ((List.range (l.n + 1)).map (fun i => (i + l.rr) % (l.n + 1))).foldl
+      (fun o p => Level.fwdPort o p) { l := l } := by
+    rw [List.foldl_map]; rfl
+  have h' : (connFold l).progress = false := h
+  rw [hf] at h'
+  have := foldl_noprog_wakes _ _ h'
+  rw [← hf] at this
+  exact this
+
+theorem noprog_tickConn0 (s : Sys) :
+    awakeOf (tickConn0 s) .c0 = false → ∀ e', e' ≠ .c0 → awakeOf (tickConn0 s) e' = awakeOf s e' := by
+  unfold tickConn0
+  extract_lets o s1
+  intro h
+  rw [AW_wmGpu _ _ _ _ (by intro _ h; cases h)] at h
+  obtain ⟨w1, w2⟩ := connTick_noprog_wakes s.l0 h
+  intro e' hne
+  have : wakeMany wakeGpu id s1 o.wakeChi = s1 := by
+    show wakeMany wakeGpu id s1 s.l0.connTick.wakeChi = s1
+    rw [w2]; rfl
+  rw [this]
+  cases e' with
+  | c0 => exact absurd rfl hne
+  | drv =>
+    show (s.dAwake || s.l0.connTick.wakePar) = s.dAwake
+    rw [w1, Bool.or_false]
+  | _ => rfl
+
+theorem noprog_tickConn1 (s : Sys) (g : Nat) :
+    awakeOf (tickConn1 s g) (.c1 g) = false →
+      ∀ e', e' ≠ .c1 g → awakeOf (tickConn1 s g) e' = awakeOf s e' := by
+  unfold tickConn1
+  extract_lets o s1 s2
+  intro h
+  rw [AW_wmSm _ _ _ _ (by intro _ h; cases h)] at h
+  have h1 : awakeOf s1 (.c1 g) = false := by
+    rw [← h]; symm
+    simp only [s2]; split
+    · rw [AW_wakeGpu _ _ _ (by intro h; cases h)]
+    · rfl
+  have h2 : (get s.l1 g).connTick.l.connAwake = false := by
+    rw [← h1]; show _ = (get (upd s.l1 g _) g).connAwake; rw [get_upd_self]
+  obtain ⟨w1, w2⟩ := connTick_noprog_wakes _ h2
+  intro e' hne
+  have e2 : s2 = s1 := by
+    show (if (get s.l1 g).connTick.wakePar = true then wakeGpu s1 g else s1) = s1
+    rw [w1]; rfl
+  have : wakeMany wakeSm (fun k => g * s.S + k) s2 o.wakeChi = s1 := by
+    show wakeMany wakeSm (fun k => g * s.S + k) s2 (get s.l1 g).connTick.wakeChi = s1
+    rw [w2, e2]; rfl
+  rw [this]
+  cases e' with
+  | c1 g' =>
+    have : g' ≠ g := fun e => hne (by rw [e])
+    show (get (upd s.l1 g _) g').connAwake = _
+    rw [get_upd_ne _ _ _ _ this]; rfl
+  | _ => rfl
+
+theorem noprog_tickConn2 (s : Sys) (m : Nat) :
+    awakeOf (tickConn2 s m) (.c2 m) = false →
+      ∀ e', e' ≠ .c2 m → awakeOf (tickConn2 s m) e' = awakeOf s e' := by
+  unfold tickConn2
+  extract_lets o s1 s2
+  intro h
+  rw [AW_wmSub _ _ _ _ (by intro _ h; cases h)] at h
+  have h1 : awakeOf s1 (.c2 m) = false := by
+    rw [← h]; symm
+    simp only [s2]; split
+    · rw [AW_wakeSm _ _ _ (by intro h; cases h)]
+    · rfl
+  have h2 : (get s.l2 m).connTick.l.connAwake = false := by
+    rw [← h1]; show _ = (get (upd s.l2 m _) m).connAwake; rw [get_upd_self]
+  obtain ⟨w1, w2⟩ := connTick_noprog_wakes _ h2
+  intro e' hne
+  have e2 : s2 = s1 := by
+    show (if (get s.l2 m).connTick.wakePar = true then wakeSm s1 m else s1) = s1
+    rw [w1]; rfl
+  have : wakeMany wakeSub (fun k => m * s.C + k) s2 o.wakeChi = s1 := by
+    show wakeMany wakeSub (fun k => m * s.C + k) s2 (get s.l2 m).connTick.wakeChi = s1
+    rw [w2, e2]; rfl
+  rw [this]
+  cases e' with
+  | c2 m' =>
+    have : m' ≠ m := fun e => hne (by rw [e])
+    show (get (upd s.l2 m _) m').connAwake = _
+    rw [get_upd_ne _ _ _ _ this]; rfl
+  | _ => rfl
+
+/-- a tick that reports no progress changes no flag but its own -/
+theorem noprog_step (s : Sys) (e : Ev) (hl : s.legacy = false) (h : awakeOf (step s e) e = false)
+    (e' : Ev) (hne : e' ≠ e) : awakeOf (step s e) e' = awakeOf s e' := by
+  cases e with
+  | drv => exact noprog_tickDriver s h e' hne
+  | gpu g => exact noprog_tickGpu s g hl h e' hne
+  | sm m => exact noprog_tickSm s m hl h e' hne
+  | sub u => exact noprog_tickSub s u h e' hne
+  | c0 => exact noprog_tickConn0 s h e' hne
+  | c1 g => exact noprog_tickConn1 s g h e' hne
+  | c2 m => exact noprog_tickConn2 s m h e' hne
+
 /-- every tick: new potential + (1 if the ticking component reported progress) ≤ old potential -/
 theorem PA_step (s : Sys) (e : Ev) (hl : s.legacy = false) (hn : NoGhost s)
     (he : e.InRange s.G s.S s.C) : PA (step s e) e ≤ Phi s := by
@@ -852,5 +993,179 @@ theorem phi_step_lt (s : Sys) (e : Ev) (hl : s.legacy = false) (hn : NoGhost s)
   rw [hp] at this
   simp only [bn_true] at this
   omega
+
+/-! ## counting awake components -/
+
+/-- number of components and connections -/
+def N (s : Sys) : Nat := (allEvs s).length
+/-- number of awake components and connections (= pending tick events) -/
+def awakeCount (s : Sys) : Nat := ((allEvs s).filter (awakeOf s)).length
+/-- the termination measure -/
+def M (s : Sys) : Nat := Phi s * (N s + 1) + awakeCount s
+
+/-- a strict run: every event ticks a component that is awake at that moment -/
+def Strict : Sys → List Ev → Prop
+  | _, [] => True
+  | s, e :: es => awakeOf s e = true ∧ Strict (step s e) es
+
+namespace Meas
+
+theorem allEvs_shape {a b : Sys} (h : Shape a b) : allEvs b = allEvs a := by
+  unfold allEvs
+  rw [h.G, h.S, h.C]
+
+theorem count_map_inj (f : Nat → Ev) (hf : ∀ a b, f a = f b → a = b) (l : List Nat) (a : Nat) :
+    (l.map f).count (f a) = l.count a := by
+  induction l with
+  | nil => rfl
+  | cons x xs ih =>
+    simp only [List.map_cons, List.count_cons, ih]
+    by_cases hx : x = a
+    · subst hx; simp
+    · have : f x ≠ f a := fun e => hx (hf _ _ e)
+      simp [hx, this]
+
+theorem count_map_ne (f : Nat → Ev) (e : Ev) (h : ∀ a, f a ≠ e) (l : List Nat) :
+    (l.map f).count e = 0 := by
+  induction l with
+  | nil => rfl
+  | cons x xs ih => simp [ih, h x]
+
+theorem count_allEvs (s : Sys) (e : Ev) (he : e.InRange s.G s.S s.C) : (allEvs s).count e = 1 := by
+  have i1 := count_map_inj Ev.gpu (fun _ _ h => Ev.gpu.inj h)
+  have i2 := count_map_inj Ev.c1 (fun _ _ h => Ev.c1.inj h)
+  have i3 := count_map_inj Ev.sm (fun _ _ h => Ev.sm.inj h)
+  have i4 := count_map_inj Ev.c2 (fun _ _ h => Ev.c2.inj h)
+  have i5 := count_map_inj Ev.sub (fun _ _ h => Ev.sub.inj h)
+  have n1 := fun e h => count_map_ne Ev.gpu e h
+  have n2 := fun e h => count_map_ne Ev.c1 e h
+  have n3 := fun e h => count_map_ne Ev.sm e h
+  have n4 := fun e h => count_map_ne Ev.c2 e h
+  have n5 := fun e h => count_map_ne Ev.sub e h
+  unfold allEvs
+  simp only [List.count_append]
+  cases e with
+  | drv =>
+    rw [n1 _ (by intro _ h; cases h), n2 _ (by intro _ h; cases h), n3 _ (by intro _ h; cases h),
+      n4 _ (by intro _ h; cases h), n5 _ (by intro _ h; cases h)]
+    decide
+  | c0 =>
+    rw [n1 _ (by intro _ h; cases h), n2 _ (by intro _ h; cases h), n3 _ (by intro _ h; cases h),
+      n4 _ (by intro _ h; cases h), n5 _ (by intro _ h; cases h)]
+    decide
+  | gpu g =>
+    have he' : g < s.G := he
+    rw [i1, n2 _ (by intro _ h; cases h), n3 _ (by intro _ h; cases h),
+      n4 _ (by intro _ h; cases h), n5 _ (by intro _ h; cases h), count_range, if_pos he']
+    simp
+  | c1 g =>
+    have he' : g < s.G := he
+    rw [i2, n1 _ (by intro _ h; cases h), n3 _ (by intro _ h; cases h),
+      n4 _ (by intro _ h; cases h), n5 _ (by intro _ h; cases h), count_range, if_pos he']
+    simp
+  | sm m =>
+    have he' : m < s.G * s.S := he
+    rw [i3, n1 _ (by intro _ h; cases h), n2 _ (by intro _ h; cases h),
+      n4 _ (by intro _ h; cases h), n5 _ (by intro _ h; cases h), count_range, if_pos he']
+    simp
+  | c2 m =>
+    have he' : m < s.G * s.S := he
+    rw [i4, n1 _ (by intro _ h; cases h), n2 _ (by intro _ h; cases h),
+      n3 _ (by intro _ h; cases h), n5 _ (by intro _ h; cases h), count_range, if_pos he']
+    simp
+  | sub u =>
+    have he' : u < s.G * s.S * s.C := he
+    rw [i5, n1 _ (by intro _ h; cases h), n2 _ (by intro _ h; cases h),
+      n3 _ (by intro _ h; cases h), n4 _ (by intro _ h; cases h), count_range, if_pos he']
+    simp
+
+theorem filter_length_add_count (l : List Ev) (p q : Ev → Bool) (x : Ev) (hx : q x = true)
+    (hpx : p x = false) (h : ∀ y, y ≠ x → p y = q y) :
+    (l.filter p).length + l.count x = (l.filter q).length := by
+  induction l with
+  | nil => rfl
+  | cons y ys ih =>
+    by_cases hy : y = x
+    · subst hy
+      simp only [List.filter_cons, hx, hpx, List.count_cons_self, if_true, List.length_cons]
+      simp
+      omega
+    · have := h y hy
+      rw [List.count_cons_of_ne (fun e => hy e)]
+      simp only [List.filter_cons, this]
+      cases q y <;> simp <;> omega
+
+end Meas
+
+theorem N_step (s : Sys) (e : Ev) : N (step s e) = N s := by
+  unfold N
+  rw [Meas.allEvs_shape (shape_step s e)]
+
+theorem awakeCount_le (s : Sys) : awakeCount s ≤ N s := List.length_filter_le _ _
+
+/-- a tick without progress of an in-range awake component puts exactly that component to sleep -/
+theorem awakeCount_noprog (s : Sys) (e : Ev) (hl : s.legacy = false) (he : e.InRange s.G s.S s.C)
+    (ha : awakeOf s e = true) (hp : awakeOf (step s e) e = false) :
+    awakeCount (step s e) + 1 = awakeCount s := by
+  unfold awakeCount
+  rw [Meas.allEvs_shape (shape_step s e)]
+  have := Meas.filter_length_add_count (allEvs s) (awakeOf (step s e)) (awakeOf s) e ha hp
+    (fun y hy => Meas.noprog_step s e hl hp y hy)
+  rw [Meas.count_allEvs s e he] at this
+  exact this
+
+/-- the measure strictly decreases on every tick of an in-range awake component -/
+theorem M_step_lt (s : Sys) (e : Ev) (hl : s.legacy = false) (hn : NoGhost s)
+    (he : e.InRange s.G s.S s.C) (ha : awakeOf s e = true) : M (step s e) < M s := by
+  unfold M
+  rw [N_step]
+  cases hp : awakeOf (step s e) e with
+  | false =>
+    have h1 := phi_step_le s e hl hn he
+    have h2 := awakeCount_noprog s e hl he ha hp
+    have h3 := Nat.mul_le_mul_right (N s + 1) h1
+    omega
+  | true =>
+    have h1 := phi_step_lt s e hl hn he hp
+    have h2 := awakeCount_le (step s e)
+    rw [N_step] at h2
+    have h3 := Nat.mul_le_mul_right (N s + 1) (Nat.succ_le_of_lt h1)
+    rw [Nat.succ_mul] at h3
+    omega
+
+theorem strict_run_bounded_gen (s : Sys) (evs : List Ev) (hl : s.legacy = false)
+    (hr : ∀ e ∈ evs, e.InRange s.G s.S s.C) (hinv : ∀ k, NoGhost (run s (evs.take k)))
+    (hs : Strict s evs) : evs.length ≤ M s := by
+  induction evs generalizing s with
+  | nil => exact Nat.zero_le _
+  | cons e es ih =>
+    have hsh := shape_step s e
+    have h0 : NoGhost s := hinv 0
+    have hlt := M_step_lt s e hl h0 (hr e (List.mem_cons_self ..)) hs.1
+    have := ih (step s e) (hsh.legacy.trans hl)
+      (by intro e' he'; rw [hsh.G, hsh.S, hsh.C]; exact hr e' (List.mem_cons_of_mem _ he'))
+      (fun k => hinv (k + 1)) hs.2
+    simp only [List.length_cons]
+    omega
+
+/-- **Finiteness of strict runs** (repaired code): a run in which every event ticks an in-range
+    component that is awake at that moment has at most `M init` events. -/
+theorem strict_run_bounded (G S C : Nat) (trace : List Kernel) (evs : List Ev)
+    (hr : ∀ e ∈ evs, e.InRange G S C)
+    (hinv : ∀ k, NoGhost (run (init false G S C trace) (evs.take k)))
+    (hs : Strict (init false G S C trace) evs) : evs.length ≤ M (init false G S C trace) :=
+  strict_run_bounded_gen _ evs rfl hr hinv hs
+
+/-- the accounting invariant excludes ghost completions -/
+theorem Inv1.noGhost {s : Sys} (h : Inv1 s) : NoGhost s :=
+  ⟨fun hp => h.lv0.unfin_pos hp, fun g hg hp => (h.lv1 g hg).unfin_pos hp,
+   fun m hm hp => (h.lv2 m hm).unfin_pos hp⟩
+
+/-- **Finiteness of strict runs**, with the invariant discharged (`inv1_run'`): from the initial
+    state of the repaired code, every strict run of in-range events has at most `M init` events. -/
+theorem strict_run_bounded' (G S C : Nat) (trace : List Kernel) (evs : List Ev)
+    (hr : ∀ e ∈ evs, e.InRange G S C) (hs : Strict (init false G S C trace) evs) :
+    evs.length ≤ M (init false G S C trace) :=
+  strict_run_bounded G S C trace evs hr (fun k => (inv1_run' G S C trace (evs.take k)).noGhost) hs
 
 end C20
